@@ -252,6 +252,13 @@ class StingyConfigurator(pg.All):
             )
         return cached
 
+    def __getstate__(self):
+        # the cached polyhedron is derived data and must not travel with a pickled (to_b64) or copied configurator:
+        # a pickled variable_ndarray loses its variables and index, so the unpacked configurator could not be queried
+        state = self.__dict__.copy()
+        state.pop("_ge_polyhedron", None)
+        return state
+
     @property
     def default_prios(self) -> typing.Dict[str, int]:
 
